@@ -17,6 +17,8 @@ def sh(cmd, cwd=None):
 
 
 FEAT = (["--features", os.environ["SEED_FEATURES"]] if os.environ.get("SEED_FEATURES") else [])
+# e.g. SEED_TEST_ARGS="--test-threads=1" for demonstrations built on a process-wide counting allocator
+TARGS = (["--"] + os.environ["SEED_TEST_ARGS"].split() if os.environ.get("SEED_TEST_ARGS") else [])
 
 
 def main():
@@ -50,21 +52,36 @@ def main():
             tests = [os.path.splitext(os.path.basename(f))[0] for f in rs]
             with_patch = []
             for t in tests:
-                r = sh(["cargo", "test", "--offline"] + FEAT + ["--test", t], cwd=scratch)
+                r = sh(["cargo", "test", "--offline"] + FEAT + ["--test", t] + TARGS, cwd=scratch)
                 with_patch.append(r.returncode)
-                ran.append("cargo test --offline --test %s (with patch) -> exit %d" % (t, r.returncode))
+                ran.append("cargo test --offline --test %s %s (with patch) -> exit %d" % (t, " ".join(TARGS), r.returncode))
             ok &= all(c != 0 for c in with_patch)
             r = sh(["git", "apply", "-R", patch], cwd=scratch)
             assert r.returncode == 0, r.stdout
             for t in tests:
-                r = sh(["cargo", "test", "--offline"] + FEAT + ["--test", t], cwd=scratch)
-                ran.append("cargo test --offline --test %s (without patch) -> exit %d" % (t, r.returncode))
+                r = sh(["cargo", "test", "--offline"] + FEAT + ["--test", t] + TARGS, cwd=scratch)
+                ran.append("cargo test --offline --test %s %s (without patch) -> exit %d" % (t, " ".join(TARGS), r.returncode))
                 if r.returncode != 0:
                     print(r.stdout[-1500:])
                 ok &= r.returncode == 0
         else:
-            print("no .rs demonstration; files:", demos)
-            ok = False
+            py = [f for f in demos if os.path.basename(f).startswith("seeded_demo") and f.endswith(".py")]
+            if py:
+                # script demonstration: run from the scratch root against the freshly built CLI
+                shutil.copytree(seeded, os.path.join(scratch, "SEEDED"), dirs_exist_ok=True)
+                for label, revert in (("with patch", False), ("without patch", True)):
+                    if revert:
+                        r = sh(["git", "apply", "-R", patch], cwd=scratch)
+                        assert r.returncode == 0, r.stdout
+                    r = sh(["cargo", "build", "--offline"], cwd=scratch)
+                    assert r.returncode == 0, r.stdout[-800:]
+                    for f in py:
+                        r = sh(["python3", os.path.join("SEEDED", os.path.basename(f))], cwd=scratch)
+                        ran.append("cargo build --offline && python3 SEEDED/%s (%s) -> exit %d" % (os.path.basename(f), label, r.returncode))
+                        ok &= (r.returncode == 0) if revert else (r.returncode != 0)
+            else:
+                print("no .rs / .py demonstration; files:", demos)
+                ok = False
     finally:
         sh(["git", "-C", REPO, "worktree", "remove", "--force", scratch])
         shutil.rmtree(scratch, ignore_errors=True)
